@@ -6,21 +6,21 @@ direction x "between" sequence x every gap size in a window around every encodin
 off and on.  Every accepted program is walked by the reference walker: each transfer must land exactly on the first
 byte after its label and the label table returned by assemble() must equal the offsets recomputed from the bytes.
 """
-from mc import kernel, progs
+import sys
+
+from mc import kernel, progs, layoutrun
 from mc.ref import layout as L
 
 PROP = 'C03'
 OWNED = {'xfer', 'structure'}
+RULE = ('states = distinct closed programs (canonical under label renaming) of the S1 history tree plus the S2 span programs; each is assembled with '
+        'compression off and on; non-trivial = accepted programs with a transfer in which at least one label ended below its pessimistic first-pass position')
 
 
 def judge(ctx, items, res, driver, case):
     for c, r in res.items():
-        ctx.count('assemblies')
         if r.status != 'ok':
-            ctx.count('refused')
-            ctx.seen('refusals', progs.refusal_class(r))
             continue
-        ctx.count('walked')
         w = r.walk
         for cat, idx, msg in w.errors:
             it = items[idx] if idx >= 0 else None
@@ -30,17 +30,12 @@ def judge(ctx, items, res, driver, case):
             else:
                 ctx.count('other:' + cat)
         if w.places is not None and not any(e[0] == 'structure' for e in w.errors) and r.labels != w.labels:
-            diff = {k: (r.labels.get(k), w.labels.get(k)) for k in set(r.labels) | set(w.labels) if r.labels.get(k) != w.labels.get(k)}
             ctx.violation('%s:labels:%s' % (PROP, 'c' if c else 'u'), 'label table %r differs from the offsets recomputed from the output %r' % (r.labels, w.labels),
                           driver, case, expected=w.labels, observed=r.labels)
 
 
-def prog_case(ctx, case):
-    asm = kernel.boot()
-    items = case['items']
-    res = progs.analyze(asm, items)
-    judge(ctx, items, res, 'prog_case', case)
-    return res
+def nontrivial(items, res):
+    return any(L.is_transfer(it) for it in items) and progs.moved(items, res)
 
 
 def alphabet(tier):
@@ -52,21 +47,8 @@ def alphabet(tier):
     return progs.instantiate(syms, ['A'] if tier == 'quick' else ['A', 'B'])
 
 
-def s1_task(ctx, task):
-    asm = kernel.boot()
-    progs.closed_programs.stats = {'histories': 0, 'open': 0}
-    alpha = alphabet(task['tier'])
-    for names, items in progs.closed_programs(alpha, task['depth'], ['A', 'B'], tuple(task['prefix'])):
-        ctx.count('programs')
-        res = progs.analyze(asm, items)
-        judge(ctx, items, res, 'prog_case', dict(items=items))
-        if any(L.is_transfer(it) for it in items):
-            ctx.count('with_transfer')
-            if progs.moved(items, res):
-                ctx.count('nontrivial')
-                ctx.sample(dict(explorer='S1', source=L.source(items).splitlines()), cap=1)
-    ctx.count('histories', progs.closed_programs.stats['histories'])
-    ctx.count('open_histories', progs.closed_programs.stats['open'])
+def depth(tier):
+    return 4
 
 
 BETWEEN = {
@@ -79,54 +61,42 @@ BETWEEN = {
     'li1+callA': [L.li(9, 1), L.call('A')],
     'addi8+addi8+lw': [progs.I('addi', rd=8, rs1=8, imm=1), progs.I('addi', rd=8, rs1=8, imm=1), progs.I('lw', rd=9, rs1=8, imm=4)],
 }
+JUMPS = ('jal0', 'jal1', 'jal5', 'j', 'jalP', 'call', 'tail')
 
 
-def s2_task(ctx, task):
-    asm = kernel.boot()
-    sym = {s[0]: s for s in progs.XFER}[task['ref']]
-    for gapn in task['gaps']:
-        for bname in task['between']:
-            for pre in ((), (progs.I('addi', rd=8, rs1=8, imm=1),)):
-                items = progs.span_program(sym[1], task['dir'], BETWEEN[bname], gapn, pre=pre)
-                ctx.count('programs')
-                res = progs.analyze(asm, items)
-                judge(ctx, items, res, 'prog_case', dict(items=items))
-                ctx.count('with_transfer')
-                if progs.moved(items, res):
-                    ctx.count('nontrivial')
-        ctx.sample(dict(explorer='S2', referrer=task['ref'], dir=task['dir'], gap=gapn), cap=1)
-
-
-DRIVERS = {'prog_case': prog_case}
-
-
-def run(tier, seed, t0):
-    depth = 4 if tier == 'quick' else 4
-    alpha = alphabet(tier)
-    tasks = [dict(t, tier=tier) for t in progs.s1_tasks(alpha, depth, 2)]
-    m = kernel.explore(s1_task, tasks)
+def s2_tasks(tier):
     s2 = []
-    between_near = list(BETWEEN) if tier == 'thorough' else ['none', 'addi8', 'li1', 'callA', 'al4', 'addi8+li1']
-    between_far = ['none', 'addi8', 'li1+callA'] if tier == 'quick' else list(BETWEEN)
+    near = list(BETWEEN) if tier == 'thorough' else ['none', 'addi8', 'li1', 'callA', 'al4', 'addi8+li1']
+    far = ['none', 'addi8', 'li1+callA'] if tier == 'quick' else list(BETWEEN)
     for s in progs.XFER:
         for d in ('fwd', 'bwd'):
             for win in progs.WINDOWS_QUICK:
                 for ch in kernel.chunks(list(win), 8):
-                    s2.append(dict(ref=s[0], dir=d, gaps=ch, between=between_near))
-            if s[0] in ('jal0', 'jal1', 'jal5', 'j', 'jalP', 'call', 'tail'):
+                    s2.append(dict(ref=s[0], dir=d, gaps=ch, between=near))
+            if s[0] in JUMPS:
                 for win in progs.WINDOWS_FAR:
                     for ch in kernel.chunks(list(win), 3):
-                        s2.append(dict(ref=s[0], dir=d, gaps=ch, between=between_far))
-    m = kernel.explore(s2_task, s2, merged=m)
-    n = m.n
-    cov = dict(states=n['programs'], transitions=n['assemblies'], traces_validated_against_impl=n['walked'],
-               evaluations=n['assemblies'], distinct_nontrivial=n['nontrivial'],
-               rule='states = distinct closed programs (canonical under label renaming) of the S1 history tree plus the S2 span programs; each is assembled with '
-                    'compression off and on; non-trivial = accepted programs with a transfer in which at least one label ended below its pessimistic first-pass position',
-               exhaustive=True, depth=depth, alphabet=[s[0] for s in alpha], histories=n['histories'], open_histories=n['open_histories'],
-               bound='S1: all closed programs of <= %d lines over the %d-symbol alphabet; S2: %d transfer kinds x 2 directions x between-sequences x every gap in '
-                     '236..267, 2030..2063, 4080..4111 and (jumps/call/tail) 2^20-24..2^20+24, 2^20+0x7e8..2^20+0x818, 2 MiB, 3 MiB' % (depth, len(alpha), len(progs.XFER)),
-               programs_with_transfer=n['with_transfer'], refused=n['refused'])
-    return kernel.finish(PROP, tier, seed, t0, m, cov, [
+                        s2.append(dict(ref=s[0], dir=d, gaps=ch, between=far))
+    return s2
+
+
+def s2_programs(task):
+    sym = {s[0]: s for s in progs.XFER}[task['ref']]
+    for gapn in task['gaps']:
+        for bname in task['between']:
+            for pre in ((), (progs.I('addi', rd=8, rs1=8, imm=1),)):
+                yield progs.span_program(sym[1], task['dir'], BETWEEN[bname], gapn, pre=pre)
+
+
+def describe(tier):
+    return ('S1: all closed programs of <= %d lines over the alphabet; S2: %d transfer kinds x 2 directions x between-sequences x 2 prefixes x every gap in '
+            '236..267, 2030..2063, 4080..4111 and (jumps/call/tail) 2^20-24..2^20+24, 2^20+0x7e8..2^20+0x818, 2 MiB, 3 MiB' % (depth(tier), len(progs.XFER)))
+
+
+DRIVERS = {'prog_case': layoutrun.prog_case(__name__)}
+
+
+def run(tier, seed, t0):
+    return layoutrun.run(sys.modules[__name__], tier, seed, t0, [
         'reference walker mc/ref/layout.py + reference decoder/ISS mc/ref/rv32.py',
         'labels pre-seeded through the labels= argument and distances beyond 3 MiB are out of scope'])
